@@ -2,7 +2,7 @@
 import numpy as np
 from ..runner import Acc, HarnessError
 from ..refmodel import Fmt, MODES, quantize, quantize_code, add_fmt, mul_fmt, min_frac_bits, min_word, dy
-from ..common import Fxp, fx, codes, flags, fmt_of, reset_class_state, build, AGED, ENVS
+from ..common import Fxp, fx, codes, flags, fmt_of, reset_class_state, build, AGED, ENVS, obs
 
 ID = 'C08'
 RULE = ('cases = (operand format pair, op, imposed-format mechanism [sizing policy | out | out_like | constant with op_input_size and '
@@ -107,7 +107,12 @@ def judge_sizing(acc, fxm, fym, xs, ys, op, policy, method, mode, part, by='raw'
     try:
         x = mk_operand(fxm, xs, (len(xs), 1), mode, by)
         y = mk_operand(fym, ys, (1, len(ys)), other_mode(mode), by)
+        before = (obs(x), obs(y), str(x.val.dtype), str(y.val.dtype))
         z = do_op(op, x, y, sizing=policy, method=method)
+        if (obs(x), obs(y), str(x.val.dtype), str(y.val.dtype)) != before:
+            acc.violation('operand_changed', case, '%s %s %s sizing=%s method=%s changed an operand: %s -> %s'
+                          % (fxm.dtype, op, fym.dtype, policy, method, before, (obs(x), obs(y))), {'part': part, 'op': op, 'policy': policy, 'method': method, 'aspect': 'operand'})
+            return
     except Exception as e:
         acc.violation('exception', case, '%s %s %s sizing=%s method=%s raised %r' % (fxm.dtype, op, fym.dtype, policy, method, e),
                       {'part': part, 'op': op, 'policy': policy, 'method': method})
@@ -136,6 +141,7 @@ def judge_target(acc, fxm, fym, xs, ys, op, tfmt, kind, tmode, method, part):
             t.set_val(np.full((len(xs), len(ys)), 1e9))
             t.set_val(np.full((len(xs), len(ys)), -1e9 - 0.3))
             t.set_val(np.zeros((len(xs), len(ys))))
+        before = (obs(x), obs(y), str(x.val.dtype), str(y.val.dtype))
         if kind == 'out':
             z = do_op(op, x, y, method=method, out=t)
         elif kind in ('out_like', 'out_like_flagged'):
@@ -154,6 +160,10 @@ def judge_target(acc, fxm, fym, xs, ys, op, tfmt, kind, tmode, method, part):
             raise ValueError(kind)
     except Exception as e:
         acc.violation('exception', case, '%s %s %s %s=%s raised %r' % (fxm.dtype, op, fym.dtype, kind, tfmt.dtype, e), {'part': part, 'op': op, 'kind': kind})
+        return
+    if (obs(x), obs(y), str(x.val.dtype), str(y.val.dtype)) != before:
+        acc.violation('operand_changed', case, '%s %s %s %s=%s method=%s changed an operand: %s -> %s'
+                      % (fxm.dtype, op, fym.dtype, kind, tfmt.dtype, method, before[:2], (obs(x), obs(y))), {'part': part, 'op': op, 'kind': kind, 'aspect': 'operand'})
         return
     if kind in ('out', 'cfg_out', 'np_out') and z is not t:
         acc.violation('identity', case, 'result of %s is not the out object' % kind, {'part': part, 'op': op, 'kind': kind})
